@@ -68,6 +68,9 @@ class ExprMixin:
         for m in getattr(self, "spec_modules", []):
             if name in m.functions:
                 return m.functions[name]
+        base = self.world.module("contracts.models")
+        if base is not None and name in base.functions:
+            return base.functions[name]
         return None
 
     def global_val(self, q):
